@@ -15,7 +15,8 @@ import HL.Model.Pipeline
 
   How it is put together (all by induction, nothing by evaluation except the closed examples):
     L3  extent lemmas, one per token class     HL/Lemmas/LexExtent.lean, LexExtentTok.lean,
-                                               LexExtentLook.lean
+                                               LexExtentLook.lean (LexExtentMore.lean: the
+                                               classes outside the core grammar, not used here)
         lines → transactions → journals        HL/Lemmas/LexGCore.lean, LexGCoreP.lean
         (`lex_header_line`, `lex_posting_line`, `lex_blank_line`, `lex_tx`, `lexAll_print`)
     L4  number layer, dates                    HL/Lemmas/ParseGCoreNum.lean
